@@ -170,6 +170,7 @@ func main() {
 		ch.Run(c)
 		if *tier == "thorough" && *patch == "" {
 			sensitivityAudit(c, *id, *repo, verifDir)
+			specificityAudit(c, *id, *repo, verifDir)
 		}
 	}()
 	os.Exit(c.Finish())
